@@ -32,7 +32,7 @@ def state_obj_words(ex, p, obj, nwords, base=0):
                 if obj[0] == "alloca":
                     cell = [gf2.TOP] * 8
                 else:
-                    cell = gf2.sym_word(("mem", obj, base + 4 * i + b), 8)
+                    cell = gf2.sym_word(ex._memsym(p, obj, base + 4 * i + b) if ex is not None else ("mem", obj, base + 4 * i + b), 8)
             bits.extend(cell)
         out.append(bits)
     return out
